@@ -339,6 +339,16 @@ impl<'a> Sk<'a> {
                         self.line(e.span())
                     ));
                 }
+                // `.clone()` of a kept value keeps the value
+                if name == "clone" && m.args.is_empty() {
+                    if let syn::Expr::Path(p) = &*m.receiver {
+                        if let Some(id) = p.path.get_ident() {
+                            if self.kept.contains_key(&id.to_string()) {
+                                return Ok(Some(format!("{id}.clone()")));
+                            }
+                        }
+                    }
+                }
                 // S10: |x| of an abstract float
                 if name == "abs" && m.args.is_empty() {
                     if let Some(t) = self.val(&m.receiver, out)? {
